@@ -62,6 +62,11 @@ FIXED = {
     "sibling-defers-stream-in-last": fixed('query Q { a ... @defer(label:"B") { b } ... @defer(label:"A") { slow l @stream(initialCount:1, label:"S") } }',
                                            {"A": "", "B": "", "S": ""}, force={"a": ("value", S), "slow": ("value", G), "b": ("value", G), "l": ("value", S)},
                                            lists={"l": (3, True, None)}),
+    # the source raises while a LATER early-executed item is still pending and the head has settled
+    "stream-fails-second-item-pending": fixed('query Q { ol @stream(initialCount:0, label:"S") { x } }', {"S": ""},
+                                              force={"ol": ("value", S), "ol/0/x": ("value", S), "ol/1/x": ("value", G)}, lists={"ol": (2, True, 2)}),
+    "stream-fails-middle-item-pending": fixed('query Q { ol @stream(initialCount:0, label:"S") { x } }', {"S": ""},
+                                              force={"ol": ("value", S), "ol/0/x": ("value", S), "ol/1/x": ("value", G), "ol/2/x": ("value", S)}, lists={"ol": (3, True, 3)}),
     # a field shared by a shallow and a deeper fragment; the deeper fragment fails through another field
     "shared-field-deeper-fails": fixed('query Q { ... @defer(label:"A") { o { x slow: y } } o { y2: y ... @defer(label:"F") { x nx } } }',
                                        {"A": "", "F": ""},
